@@ -115,6 +115,21 @@ def train_on_grid(draw, n, pool, earlier, max_spikes, related=False):
 @st.composite
 def int_train_lists(draw, min_trains=2, max_trains=2, max_spikes=8, max_len=None,
                     related=False):
+    g = draw(_int_train_lists_core(min_trains, max_trains, max_spikes, max_len, related))
+    # how the caller builds the SpikeTrain objects (ps.trains): from sorted times, or from
+    # times in another order with is_sorted=False (the constructor sorts them), possibly
+    # taking a copy() before anything else has looked at the object
+    g["ctor"] = draw(st.sampled_from([None] * 5 + ["unsorted", "unsorted_copy"]))
+    # checks that judge twice (ps.reedit): after the first round the caller edits the
+    # objects in place - one spike moved, all spikes shifted, the recording extended -
+    # and asks again with the same objects
+    g["reuse"] = draw(st.sampled_from([None] * 4 + ["elem", "shift", "edges"]))
+    return g
+
+
+@st.composite
+def _int_train_lists_core(draw, min_trains=2, max_trains=2, max_spikes=8, max_len=None,
+                          related=False):
     q, k0, n = draw(grids(max_len))
     psize = draw(st.sampled_from([4, 6, 2, 8, 0]))
     pool = _uniq_sorted([0, n] + draw(st.lists(st.integers(0, n), min_size=psize,
@@ -156,8 +171,12 @@ def int_train_lists(draw, min_trains=2, max_trains=2, max_spikes=8, max_len=None
 def to_times(g):
     """integer case -> floats (exact: q is a power of two)"""
     q, k0 = g["q"], g["k0"]
-    return dict(t0=(k0) / q, t1=(k0 + g["n"]) / q,
-                trains=[[(k0 + j) / q for j in tr] for tr in g["trains"]])
+    c = dict(t0=(k0) / q, t1=(k0 + g["n"]) / q,
+             trains=[[(k0 + j) / q for j in tr] for tr in g["trains"]])
+    for key in ("ctor", "reuse"):
+        if g.get(key):
+            c[key] = g[key]
+    return c
 
 
 def sizes(tier):
